@@ -302,6 +302,76 @@ def gen_suspend_oversell(seed, drv):
     return g
 
 
+def gen_cancel(seed, drv):
+    """two memory changes in one pool in one tick that cancel exactly: container A finishes (its memory goes back) in the very tick in which
+    container B starts an operator that needs that much more -- and more than B was allocated.  The pool's total does not move; B must be killed all the same"""
+    rng = random.Random(seed)
+    tps = rng.choice([1, 2, 4])
+    cfg = {"tps": tps, "multi": True, "over": rng.random() < 0.3, "npools": rng.choice([1, 2]), "cpus": 8, "ram": fstr(rng.choice([32, 64]))}
+    k = rng.randint(1, 3)
+    mA = rng.choice([2, 4, 10])
+    m1 = rng.choice([1, 5])
+    pipes = [{"prio": 3, "ops": [simple_op(tps, k + 1, fixed=mA)]},
+             {"prio": 3, "ops": [simple_op(tps, k, fixed=m1), simple_op(tps, rng.randint(2, 4), fixed=m1 + mA, parents=[0])]}]
+    for _ in range(rng.randint(0, 2)):        # bystanders with constant memory
+        pipes.append({"prio": 3, "ops": [simple_op(tps, rng.randint(4, 8), fixed=rng.choice([1, 2]))]})
+    g = _mk(rng, cfg, pipes, drv)
+    pool = rng.randrange(cfg["npools"])
+    order = list(range(len(pipes)))
+    rng.shuffle(order)
+    for pid in order:
+        alloc = {0: mA + rng.choice([0, 1]), 1: m1 + F(mA, 2)}.get(pid, 4)
+        g.assign(pool, 1, alloc, sensible_refs(g, pid, True))
+    for t in range(k + 8):
+        if g.dead:
+            break
+        g.tick()
+    g.count("cancelling_memory_scenarios")
+    g.sc["order"] = g.order
+    return g
+
+
+def gen_sibling_suspend(seed, drv):
+    """two containers of ONE pipeline (two branches of a fan-out, two operators each) are suspended with different allocations, i.e. write-outs
+    of different lengths that overlap: each container's operators come back only when its own write-out ends"""
+    rng = random.Random(seed)
+    tps = rng.choice([1, 2, 4, 8])
+    cfg = {"tps": tps, "multi": True, "over": False, "npools": rng.choice([1, 2]), "cpus": 8, "ram": fstr(64)}
+    nb = rng.choice([2, 2, 3])
+    ops = [simple_op(tps, 1, fixed=F(1, 64))]
+    for b in range(nb):
+        first = len(ops)
+        ops.append(simple_op(tps, rng.randint(1, 2), fixed=F(1, 64), parents=[0]))
+        ops.append(simple_op(tps, rng.randint(2, 4), fixed=F(1, 64), parents=[first]))
+    pipes = [{"prio": 3, "ops": ops}]
+    g = _mk(rng, cfg, pipes, drv)
+    q, gg = g.q, g.g
+    g.assign(0, 1, 1, [(0, 0)])
+    for _ in range(4):
+        g.tick()
+        if g.st[0][0] == "C":
+            break
+    # write-outs of clearly different lengths
+    lens = rng.sample([1, 2, 3, 5, 8], nb)
+    for b in range(nb):
+        alloc = F(gg, q) * lens[b]
+        if alloc > 16 or (alloc * 64).denominator != 1:
+            alloc = F(gg, q)
+        g.assign(rng.randrange(cfg["npools"]), 1, alloc, [(0, 1 + 2 * b), (0, 2 + 2 * b)])
+    for t in range(30):
+        if g.dead:
+            break
+        for pi, p in enumerate(g.pools()):
+            for c in p["A"]:
+                if c[4] and rng.random() < 0.9:
+                    g.emit(["suspend", pi, c[0]]); g.count("suspend_req_legal")
+        g.tick()
+        if sum(len(p["S"]) for p in g.pools()) >= 2:
+            g.count("ticks_with_two_sibling_writeouts")
+    g.sc["order"] = g.order
+    return g
+
+
 def gen_oversell(seed, drv):
     """batches around the free amounts of a pool: exactly fitting, one over in CPU, one quantum over in RAM, both"""
     rng = random.Random(seed)
